@@ -116,6 +116,11 @@ def generate(repo):
     # --- BufferedStream
     b1 = need(r"kBufferSize\s*=\s*std::max<size_t>\s*\(\s*(\d+)\s*,\s*kToStringMaxBytes\s*\)", bs, "BufferedStream kBufferSize")
     consts.append(("bs_buffer_size", int(b1.group(1))))
+    tb = rd("util", "threaded_buffered_stream.hh")
+    b2 = need(r"kBlockSize\s*=\s*\(\s*(\d+)\s*>\s*kToStringMaxBytes\s*\)\s*\?\s*(\d+)\s*:\s*kToStringMaxBytes", tb, "BlockQueue::kBlockSize")
+    if b2.group(1) != b2.group(2):
+        raise ValueError("kBlockSize expression changed shape")
+    consts.append(("tbs_block_size", int(b2.group(1))))
     # --- WARC
     kr = need(r"const\s+std::size_t\s+kRead\s*=\s*(\d+)\s*;", warc, "warc kRead")
     consts.append(("warc_kread", int(kr.group(1))))
